@@ -48,7 +48,7 @@ CORPUS = [["v", 0], ["v", 1], ["v", 2], ["v", 3], ["v", 5], ["v", 1000], ["v", -
 
 
 def plan(tier):
-    n = 2400 if tier == "quick" else 60000
+    n = 4000 if tier == "quick" else 60000
     return {"cases": n, "params": {}, "timeout_s": 1500 if tier == "quick" else 7200,
             "min": {"calls": 50_000, "decided_one_matches": 10_000, "target_matched": 5_000, "target_literal": 300,
                     "target_container": 300, "target_string": 300, "target_combination": 300,
@@ -118,6 +118,8 @@ def gen_case(rng, params, idx):
     npos = rng.choice([1, 1, 1, 1, 1, 1, 2, 2, 3])
     methods = [{"mid": 0, "pos": [{"n": "a0", "t": target}], "kw": [], "prio": 0, "kind": "leaf"}]
     shape = rng.choice(["none", "few_lits", "many_lits", "many_lits", "overlap_lits", "mixed", "other_types"])
+    if shape == "many_lits" and rng.random() < 0.5:
+        npos = 3        # three positions: room for methods of one rank that trade specificity between positions
     comps = []
     if shape == "few_lits":
         comps = [_gen_literal(rng, 1) for _ in range(rng.randint(1, 2))]
